@@ -103,6 +103,14 @@ class Ctx:
         self._case_index = 0
         self.caps_hit: List[str] = []
         self.backend = os.environ.get("VF_BACKEND")
+        self.loglevel = os.environ.get("VF_LOGLEVEL")
+        if self.loglevel == "debug":
+            # the library under DEBUG logging (what `python -m chuk_mcp --verbose` sets up); records go nowhere
+            import logging
+            root = logging.getLogger()
+            root.setLevel(logging.DEBUG)
+            if not any(isinstance(h, logging.NullHandler) for h in root.handlers):
+                root.addHandler(logging.NullHandler())
 
     # -- sharding ---------------------------------------------------------
     def mine(self) -> bool:
@@ -134,6 +142,9 @@ class Ctx:
                cls: Optional[str] = None, sample: Any = None) -> None:
         """One executed case.  Distinctness = hash(case) + hash(observed shape)."""
         self.evaluations += 1
+        if self.loglevel:
+            self.count("loglevel:" + self.loglevel)
+            case = {"loglevel": self.loglevel, "case": case}
         if self.backend:
             self.count("backend:" + self.backend)
             case = {"backend": self.backend, "case": case}
@@ -150,6 +161,8 @@ class Ctx:
     def violation(self, mechanism: str, message: str, case: Any, observed: Any = None) -> None:
         if self.backend:
             message = f"[{self.backend} backend] {message}"
+        if self.loglevel == "debug":
+            message = f"[DEBUG logging] {message}"
         self.violations.append({
             "mechanism": mechanism,
             "message": message,
@@ -318,15 +331,16 @@ def main(argv: Optional[List[str]] = None) -> int:
     _sh.rmtree(os.path.join(ROOT, "out", "replays", prop_id), ignore_errors=True)
     nshards = getattr(mod, "SHARDS", {}).get(args.tier, 1)
     backends = getattr(mod, "BACKENDS", None)   # e.g. ["pydantic", "fallback"]: every case runs under each
-    if nshards <= 1 and not backends:
+    if nshards <= 1 and not backends and not getattr(mod, "LOGLEVELS", None):
         merged = _merge([run_shard_inproc(prop_id, args.tier, args.seed, (0, 1), budget)])
     else:
         tmp = tempfile.mkdtemp(prefix=f"vf_{prop_id}_")
         procs = []
         try:
-            for b in (backends or [None]):
+            loglevels = getattr(mod, "LOGLEVELS", None) or [None]   # e.g. ["default", "debug"]
+            for b, ll in [(b, ll) for b in (backends or [None]) for ll in loglevels]:
                 for i in range(max(1, nshards)):
-                    outp = os.path.join(tmp, f"shard{b}_{i}.json")
+                    outp = os.path.join(tmp, f"shard{b}_{ll}_{i}.json")
                     cmd = [PY, "-B", "-m", "vf.core", prop_id, "--tier", args.tier, "--seed",
                            str(args.seed), "--shard", f"{i}/{max(1, nshards)}", "--shard-out", outp]
                     if budget is not None:
@@ -337,7 +351,9 @@ def main(argv: Optional[List[str]] = None) -> int:
                         env["MCP_FORCE_FALLBACK"] = "1"
                     if b:
                         env["VF_BACKEND"] = b
-                    procs.append((f"{b or ''}{i}", outp, subprocess.Popen(cmd, env=env, cwd=ROOT,
+                    if ll:
+                        env["VF_LOGLEVEL"] = ll
+                    procs.append((f"{b or ''}{ll or ''}{i}", outp, subprocess.Popen(cmd, env=env, cwd=ROOT,
                                                                          stdout=subprocess.DEVNULL,
                                                                          stderr=subprocess.PIPE)))
             parts = []
